@@ -508,10 +508,49 @@ def sz2(ctx):
                         cut_edges += oks
                     else:
                         cut.append(cs.point)
+        fl = flow_of(b)
+        sizing = set()
+        for cs in b.calls:
+            if cs.node is not None and ctx.E.call_may(cs, 'SETLEN'):
+                cb = ctx.f.bodies[cs.node]
+                sl = setlen_full_sites(ctx, cb)
+                if sl and all(any(cb.dominates(p, e) for p in sl) for e in [e['point'] for e in cb.ok_exits()]):
+                    sizing.add(cs.point)
         for s_ in stores:
             n += 1
             r = b.reach([b.entry], avoid=cut, avoid_edges=cut_edges)
-            ctx.check(s_ not in r, '%s:reuse-arm' % (BW_WRITE if b.name == BW_WRITE else b.path), where(b, s_), 'every path to the handle replacement sizes the new file (set_len(FILE_NUM_BYTES) or create_file)',
+            bad_path = s_ in r
+            if bad_path:
+                # by provenance: the handle stored comes out of an opening call; follow the VALUE instead of every CFG path
+                # (helpers handing the file on inside a Result / a small struct are inlined into one body whose join
+                # blocks merge the failure paths of one source with the success path of another): a source that does not
+                # size the file itself is sized between the point where its handle is taken out of the call's result and
+                # the store
+                st_rv = [rv for (p, pl, rv) in b.stores if p == s_][0]
+                back = fl.backward(set(fl.op_nodes(st_rv['op'])) if st_rv['k'] == 'use' else set().union(*[set(fl.op_nodes(o)) for o in rvalue_operands(st_rv)]))
+                srcs = [cs for cs in b.calls if cs.dest_local() is not None and any(x in back for x in fl.call_result_nodes(cs))
+                        and ((cs.node is not None and (ctx.E.call_may(cs, 'OPENRW') or ctx.E.call_may(cs, 'CREATE'))) or any(p_ == cs.point and e_ in ('OPENRW', 'CREATE') for (p_, e_, _c) in ctx.E.direct_sites(b)))]
+                if srcs:
+                    bad_path = False
+                    for cs in srcs:
+                        if cs.point in sizing:
+                            continue
+                        # locals holding the call's result itself, or what `?` (Try::branch) makes of it
+                        holders = set(alias_paths(b, cs.dest_local()))
+                        for c2 in b.calls:
+                            if c2.name.endswith('::branch') and c2.arg_local(0) in holders and c2.dest_local() is not None:
+                                holders |= set(alias_paths(b, c2.dest_local()))
+                        takes = []
+                        for l in range(len(b.j['locals'])):
+                            if b.local_ty(l) != 'std::fs::File':
+                                continue
+                            d = b.single_def(l)
+                            if d and d[1] == 'assign' and d[2]['rv']['k'] == 'use' and d[2]['rv']['op']['k'] in ('copy', 'move') and d[2]['rv']['op']['place']['l'] in holders \
+                                    and any(e['k'] == 'downcast' for e in d[2]['rv']['op']['place']['p']):
+                                takes.append(d[0])
+                        if not takes or any(s_ in b.reach_after(tp, avoid=cut) for tp in takes):
+                            bad_path = True
+            ctx.check(not bad_path, '%s:reuse-arm' % (BW_WRITE if b.name == BW_WRITE else b.path), where(b, s_), 'every path to the handle replacement sizes the new file (set_len(FILE_NUM_BYTES) or create_file)',
                       'a next WAL file can become the writer\'s file without set_len(FILE_NUM_BYTES): a 0-length leftover of a crash during file creation would swallow everything written to it')
     if n == 0:
         ctx.missing('file-store', 'no store to RollingWriter.file found')
